@@ -28,7 +28,7 @@ def events():
             continue
         mods.append(m.name)
     ev = [f"import:{m}" for m in sorted(set(mods))]
-    ev += ["import:xarray", "register", "isactive", "register_via_private"]
+    ev += ["import:xarray", "register", "isactive", "register_via_private", "dask_dispatch"]
     return ev
 
 
@@ -54,6 +54,26 @@ def _do(event):
         # alone must not register either
         try:
             importlib.import_module("dask_array._xarray")
+            return "ok"
+        except Exception as e:  # noqa: BLE001
+            return type(e).__name__
+    if event == "dask_dispatch":
+        # ordinary use that goes through dask's collection dispatch (the hook
+        # dask_array wraps around dask._collections.new_collection)
+        try:
+            import dask
+            from dask._collections import new_collection
+
+            import dask_array as da
+
+            x = da.ones((4,), chunks=2) + 1
+            new_collection(x.expr)
+            dask.persist(x, scheduler="sync")
+            if "xarray" in sys.modules:
+                import xarray as xr
+
+                ds = xr.Dataset({"a": ("x", x)})
+                dask.persist(ds, scheduler="sync")
             return "ok"
         except Exception as e:  # noqa: BLE001
             return type(e).__name__
@@ -229,9 +249,13 @@ def run_shard(shard):
         # quick tier: the first level is expanded over every event, deeper
         # levels over the core events (the package, xarray, register/isactive,
         # the integration modules and a few representative submodules)
-        level_evs = evs if (tier != "quick" or level == 0) else core
         jobs = []
         for h in frontier:
+            # (quick) states reached by one xarray-related event are also
+            # expanded over every event: an import-time side effect of any
+            # submodule that depends on xarray being loaded first shows there
+            full = tier != "quick" or level == 0 or (len(h) == 1 and h[0] in ("import:xarray", "import:dask_array._xarray", "register_via_private"))
+            level_evs = evs if full else core
             for c0 in range(0, len(level_evs), 24):
                 jobs.append((h, level_evs[c0:c0 + 24]))
         with ThreadPoolExecutor(nworkers()) as tp:
